@@ -76,6 +76,11 @@ class InterpND:
             # print(self.int_all[i], self.z, j, tmp)
             self.int_all[i] = tmp
         self.int_all = self.int_all / (2**self.n_dim)
+        # probability of a cell = mean corner value * cell volume
+        volume = np.ones(())
+        for i in self.xs:
+            volume = np.multiply.outer(volume, np.diff(i))
+        self.int_all = self.int_all * volume
         self.int_step = np.cumsum(self.int_all.flatten())
 
     def generate(self, N):
